@@ -143,7 +143,7 @@ def preload():
     import pydcop.infrastructure.orchestrator  # noqa
     import pydcop.dcop.scenario  # noqa
     from pydcop.algorithms import load_algorithm_module
-    for a in ("dpop", "mgm", "dsa", "mgm2"):
+    for a in ("dpop", "mgm", "dsa", "mgm2", "adsa"):
         load_algorithm_module(a)
     import pydcop.computations_graph.pseudotree  # noqa
     import pydcop.computations_graph.constraints_hypergraph  # noqa
@@ -544,6 +544,7 @@ class ThreadTrace(object):
             if getattr(comp, "_c21_wrapped", False):
                 return
             comp._c21_wrapped = True
+            comp._c21_agent = agent_name
             name = comp.name
             for meth, kind in (("start", "start"), ("on_message", "on_message"), ("pause", "pause")):
                 orig = getattr(comp, meth)
@@ -636,6 +637,29 @@ class ThreadTrace(object):
                 cb = _CbWrap(tt, selfd.own_agent, cb)
             return orig_all(selfd, cb, *a, **k)
         D.subscribe_all_agents = sub_all
+        # helper threads (threading.Thread / threading.Timer) whose body is a method of a hosted
+        # computation: that method is a deferred / periodic action of the computation running on
+        # a thread of its own
+        from pydcop.infrastructure.computations import MessagePassingComputation as MPC
+
+        def comp_of(fn):
+            obj = getattr(fn, "__self__", None)
+            return obj if isinstance(obj, MPC) else None
+        orig_trun, orig_timer_run = threading.Thread.run, threading.Timer.run
+
+        def thread_run(selft):
+            c = comp_of(getattr(selft, "_target", None))
+            if c is None:
+                return orig_trun(selft)
+            return tt.callback(getattr(c, "_c21_agent", "?"), c.name, "periodic", lambda: orig_trun(selft))
+
+        def timer_run(selft):
+            c = comp_of(getattr(selft, "function", None))
+            if c is None:
+                return orig_timer_run(selft)
+            return tt.callback(getattr(c, "_c21_agent", "?"), c.name, "periodic",
+                               lambda: orig_timer_run(selft))
+        threading.Thread.run, threading.Timer.run = thread_run, timer_run
         # orchestrator entry points
         O = om.Orchestrator
         for meth, api in (("start", "orch_start"), ("deploy_computations", "orch_deploy"),
